@@ -2,11 +2,14 @@ SPECIFICATION Spec
 CONSTANTS
   MaxLen = 4
   MaxLenCheap = 4
+  KindLen = 3
   InitAll = FALSE
   BugNextArgNoSkip = FALSE
   BugUseFlagAll = TRUE
   BugOptionalOrigState = FALSE
   BugNames = "none"
+  BugMissingIsOther = FALSE
+  BugUsage = "none"
 VIEW View
 INVARIANTS TypeOK FamilyTerminates ConsumedExactlyOnce OptionValueNotPositional FlagNeverFails HelpLaw SuccessLeavesNothing
 CHECK_DEADLOCK FALSE
